@@ -48,7 +48,7 @@ pub fn object_class_assignement(input: Input<'_>) -> ParserResult<'_, ObjectClas
         (
             skip_ws(many0(comment)),
             skip_ws(context_boundary(uppercase_identifier)),
-            skip_ws(opt(parameterization)),
+            skip_ws_and_comments(opt(parameterization)),
             preceded(assignment, alt((type_identifier, object_class_defn))),
         ),
         |v| ObjectClassAssignment {
